@@ -13,7 +13,7 @@ SPEC = dict(
           "about the very function the driver executes (findBonds), instantiated with the offset list and distances the translator "
           "extracts from bonds.py; obligations on those generated values (half-space completeness, no zero offset, box > longest "
           "bond, symmetric table) are re-proved by `decide` on every run. Correspondence compares ordered bond lists of the real "
-          "BondMaker with the model on random clouds, all 26 straddling directions, box-multiple coordinates and the test PDBs. The bonding of a whole conformation is part of the set-up pipeline model (Pipe.bondAll over Bonds.visited, with the disulfide flag) whose output is compared bond list by bond list, in order, with the real atoms on every program-level comparison; bridged_not_titratable (Props/Pipeline.lean) carries the flag to the group.",
+          "BondMaker with the model on random clouds, all 26 straddling directions, box-multiple coordinates and the test PDBs. The bonding of a whole conformation is part of the set-up pipeline model (Pipe.bondAll over Bonds.visited, with the disulfide flag) whose output is compared bond list by bond list, in order, with the real atoms on every program-level comparison; bridged_not_titratable (Props/Pipeline.lean) carries the flag to the group. Refinement (Proofs/Pipeline.lean: bondStep_refines, bondFold_refines, bondAll_refines): the bond list of every atom after the pipeline's bonding phase is its adjacency in the pair-list model Bonds.findBonds, in the same order; hence pipeline_bonds_pairwise (any scalar: with a half-complete offset list, a symmetric criterion and bonded atoms in adjacent cells, j is bonded to i iff the criterion accepts the pair), pipeline_bonds_symm, and pipeline_bonds_pairwise_shipped (exact milli-Angstrom arithmetic with the regenerated distances and offsets: no hypothesis left but a table of atoms without bonds).",
     note="Theorem at exact integer milli-Angstrom arithmetic; the Float instance is compared with the code bit-for-bit in its "
          "decisions and the exact instance is compared too (pairs whose squared distance equals a threshold exactly are counted as "
          "near-threshold and skipped for the exact comparison). Elements of more than two letters are outside the key-splitting "
